@@ -318,11 +318,36 @@ func (c *Ctx) IsShard() bool { return c.shard >= 0 }
 // Mine tells whether case i belongs to this process.
 func (c *Ctx) Mine(i int) bool { return c.shard < 0 || i%c.shards == c.shard }
 
-// ForEach runs f serially for the cases of this shard.
+// ForEach runs f serially for the cases of this shard. Cases are deterministic functions of (seed, i), so a
+// case can be executed again: some are revisited right after the next case (A B A), two cases later, and the
+// first few once more after all the others - an input must get the same verdict whatever the process has
+// processed in between (caches, pools and memos keyed by input text are a favourite source of regressions).
 func (c *Ctx) ForEach(n int, f func(i int)) {
+	var mine []int
 	for i := 0; i < n; i++ {
 		if c.Mine(i) {
-			f(i)
+			mine = append(mine, i)
+		}
+	}
+	revisit := func(i int) {
+		c.Count("cases_revisited_later_in_the_same_process", 1)
+		f(i)
+	}
+	for j, i := range mine {
+		f(i)
+		if os.Getenv("VERIF_NO_REVISIT") != "" {
+			continue
+		}
+		if j%7 == 3 && j >= 1 {
+			revisit(mine[j-1])
+		}
+		if j%11 == 5 && j >= 2 {
+			revisit(mine[j-2])
+		}
+	}
+	if os.Getenv("VERIF_NO_REVISIT") == "" {
+		for j := 0; j < len(mine) && j < 4 && len(mine) > 8; j++ {
+			revisit(mine[j])
 		}
 	}
 }
